@@ -129,7 +129,10 @@ def judge(case):
             tags.append("has-zero-weight")
         try:
             if uid is not None:
+                rng0 = random.getstate()
                 a = dc(uid, pop, ws_arg)
+                if random.getstate() != rng0:
+                    viol.append("a call WITH an id touched the global random generator (later id-less draws would no longer be random)")
                 b = dc(uid, pop, cum_weights=cum_arg)
                 a2 = dc(uid, pop, weights=ws_arg)
                 if not _is_elem(a, pop):
@@ -255,7 +258,54 @@ def judge(case):
             "sample": {k: case[k] for k in ("kind", "id", "ws") if k in case}}
 
 
+def dyadic_cases():
+    """float weights whose running sums carry rounding error, asked at hash positions that sit EXACTLY on a share boundary
+    (k/2^m, substituted from outside; plus one real id found once by brute force): the weights form and the
+    cum_weights=list(accumulate(weights)) form must still pick the same element"""
+    for w, n in ((0.1, 64), (0.2, 64), (0.05, 64), (0.3, 16), (0.7, 32), (1 / 3, 8), (0.1, 10), (1e-9, 64), (0.6, 5), (2.5, 64), (1, 64)):
+        yield {"kind": "dyadic", "w": w, "n": n, "ms": [6, 5, 4, 3, 1]}
+    yield {"kind": "dyadic", "ws": [0.1, 0.2, 0.3, 0.4, 0.1, 0.2, 0.3, 0.4], "ms": [4, 3, 2]}
+    yield {"kind": "dyadic", "ws": [0.1] * 7 + [0.3], "ms": [3, 2, 1]}
+
+
+def judge_dyadic(case):
+    from . import c03
+
+    dc = sut.binning().deterministic_choice
+    ws = list(case["ws"]) if "ws" in case else [case["w"]] * case["n"]
+    n = len(ws)
+    cum = list(itertools.accumulate(ws))
+    pop = [Tag(i, None) for i in range(n)]
+    viol = []
+    positions = sorted({(k << 32) >> m for m in case["ms"] for k in range(1 << m)})
+    consulted = 0
+    for g in positions:
+        with c03._Subst(g) as sub:
+            a = dc("unit", pop, list(ws))
+            b = dc("unit", pop, cum_weights=list(cum))
+            consulted += sub.calls
+        if a is not b:
+            viol.append("hash position %d/2^32 (= %g exactly): weights=%r... selects #%s, cum_weights=list(accumulate(weights)) selects #%s"
+                        % (g, g / 2 ** 32, ws[:3], getattr(a, "i", a), getattr(b, "i", b)))
+            break
+    tags = ["dyadic-positions"]
+    if not consulted:
+        tags.append("substitution-not-consulted")  # the function no longer asks deterministic_proba: only the real id below counts
+    if len(set(ws)) == 1 and n == 64 and ws[0] in (0.1, 0.2, 0.05):
+        # a real id whose MD5 starts with 90000000: position 36/64 exactly
+        uid = "user-15393501"
+        assert refbucket.string_position(uid) == 0x90000000
+        a = dc(uid, pop, list(ws))
+        b = dc(uid, pop, cum_weights=list(cum))
+        if a is not b:
+            viol.append("id %r (hash position 36/64 exactly): weights=[%r]*64 selects #%s, cum_weights=list(accumulate(weights)) selects #%s"
+                        % (uid, ws[0], getattr(a, "i", a), getattr(b, "i", b)))
+    return {"viol": viol, "nontrivial": True, "tags": tags, "key": case, "sample": {"dyadic": {k: v for k, v in case.items() if k != "kind"}}}
+
+
 def judge_case(record):
+    if record["case"].get("kind") == "dyadic":
+        return judge_dyadic(record["case"])["viol"]
     part = record.get("part", "")
     if part.startswith("python-"):  # found under an optimised interpreter: replay there
         return runner.child_judge("C16", [record["case"]], py_flags=(part[len("python"):],))["results"][0]
@@ -289,6 +339,10 @@ def run(ctx, rec):
                 if msgs:
                     rec.violation("python%s" % "".join(flags), c, ["under python %s: %s" % ("".join(flags), m) for m in msgs])
                     return
+    if ctx.shard == 0:
+        runner.direct_run(ctx, rec, "exact-boundary-positions", dyadic_cases(), judge_dyadic)
+        if rec.violations:
+            return
     runner.hyp_run(ctx, rec, "well-formed", good(), judge, ctx.n(1500, 6000))
     if rec.violations:
         return
